@@ -259,10 +259,10 @@ fn format_attribute(
     if let Some((last, main)) = attr.arguments.split_last() {
         output.push('(');
         for expr in main {
-            format_expression(expr, output, context)?;
+            format_expression_no_sequence(expr, output, context)?;
             output.push_str(", ");
         }
-        format_expression(last, output, context)?;
+        format_expression_no_sequence(last, output, context)?;
         output.push(')');
     }
 
@@ -293,7 +293,7 @@ fn format_function_param(
 
     if let Some(default_expr) = &param.default_expr {
         output.push_str(" = ");
-        format_expression(default_expr, output, context)?;
+        format_expression_no_sequence(default_expr, output, context)?;
     }
 
     Ok(())
@@ -555,7 +555,7 @@ fn format_declarator(
 
             output.push('[');
             if let Some(expr) = array_size {
-                format_expression(expr, output, context)?;
+                format_expression_no_sequence(expr, output, context)?;
             }
             output.push(']');
             format_attributes(attributes, false, false, output, context)?;
@@ -599,7 +599,9 @@ fn format_expression_or_type(
 ) -> Result<(), FormatError> {
     match value {
         ast::ExpressionOrType::Expression(expr) | ast::ExpressionOrType::Either(expr, _) => {
-            format_expression(expr, output, context)
+            // Template arguments and sizeof operands are read up to the next `,` or `>`
+            // Anything that binds looser than + and - may expose one of these so it needs parenthesis
+            format_subexpression(expr, 7, OperatorSide::CommaList, output, context)
         }
         ast::ExpressionOrType::Type(ty) => format_type_id(ty, output, context),
     }
@@ -874,6 +876,16 @@ fn format_expression(
     context: &mut FormatContext,
 ) -> Result<(), FormatError> {
     format_subexpression(expr, u32::MAX, OperatorSide::Middle, output, context)
+}
+
+/// Format an expression in a position where a top level comma separates list elements
+/// A sequence expression needs parenthesis there
+fn format_expression_no_sequence(
+    expr: &ast::Expression,
+    output: &mut String,
+    context: &mut FormatContext,
+) -> Result<(), FormatError> {
+    format_subexpression(expr, 17, OperatorSide::CommaList, output, context)
 }
 
 enum OperatorSide {
@@ -1269,7 +1281,7 @@ fn format_enum(
 
         if let Some(expr) = &value.value {
             output.push_str(" = ");
-            format_expression(expr, output, context)?;
+            format_expression_no_sequence(expr, output, context)?;
         }
 
         output.push(',');
